@@ -156,6 +156,23 @@ def infl_abs(x, eps_iv):
     return x + iv.mpf([-eps_iv.b, eps_iv.b])
 
 
+def ipow(x, n):
+    """x^n for an interval x and an integer n >= 1 (large n through exp/log so that it cannot hang)."""
+    if n <= 64:
+        return x ** n
+    m = abs(x)
+    hi = m.b
+    top = iv.exp(n * iv.log(hi)) if not is_zero(hi) else _IV0
+    if contains_zero(x):
+        lo = -top if (n % 2 == 1 and mpf_lt(x._mpi_[0], fzero)) else _IV0
+        return iv.mpf([lo.a, top.b])
+    bot = iv.exp(n * iv.log(m.a))
+    r = iv.mpf([bot.a, top.b])
+    if all_neg(x) and n % 2 == 1:
+        return -r
+    return r
+
+
 def representable(fr: Fraction) -> bool:
     try:
         return Fraction(float(fr)) == fr
@@ -360,7 +377,7 @@ class Model:
         if k == "Reciprocal":
             return 1 / xs[0] if all_pos(xs[0]) else _IV1
         if k == "NthPower":
-            return xs[0] ** S.int_n(s[2])
+            return ipow(xs[0], S.int_n(s[2]))
         if k == "NthRoot":
             return xs[0] + 1
         if k == "Exponential":
@@ -427,7 +444,7 @@ class Model:
             n = S.int_n(s[2])
             if n == 1:
                 return Val("def", a.iv, a.ex, a.fx)
-            x = infl(a.iv ** n, KT, sc)
+            x = infl(ipow(a.iv, n), KT, sc)
             ex = None
             if a.ex is not None:
                 if (a.ex.numerator.bit_length() + a.ex.denominator.bit_length()) * n <= 4096:
@@ -562,7 +579,7 @@ class Model:
             r = -r
         ex = None
         fx = False
-        if a.ex is not None:
+        if a.ex is not None and n <= 64:
             rt = frac_root(abs(a.ex), n)
             if rt is not None:
                 ex = -rt if a.ex < 0 else rt
@@ -748,11 +765,11 @@ class Model:
             (du, dua, dux) = cd[0]
             if n == 1:
                 return du, dua, dux
-            p = infl(u.iv ** (n - 1), KT, self.scale) if n > 2 else u.iv
+            p = infl(ipow(u.iv, n - 1), KT, self.scale) if n > 2 else u.iv
             d = M(M(ivnum(n), p), du)
-            da = n * abs(u.iv ** (n - 1)) * dua
+            da = n * abs(ipow(u.iv, n - 1)) * dua
             dx = None
-            if dux is not None and u.ex is not None:
+            if dux is not None and u.ex is not None and n <= 64:
                 dx = n * u.ex ** (n - 1) * dux
                 if not _frac_ok(dx):
                     dx = None
@@ -763,12 +780,12 @@ class Model:
             if n == 1:
                 return du, dua, dux
             r = v.iv
-            p = infl(r ** (n - 1), KT, self.scale) if n > 2 else r
+            p = infl(ipow(r, n - 1), KT, self.scale) if n > 2 else r
             den = M(ivnum(n), p)
             d = D(du, den)
             da = dua / abs(den)
             dx = None
-            if dux is not None and v.ex is not None and v.ex != 0:
+            if dux is not None and v.ex is not None and v.ex != 0 and n <= 64:
                 dx = dux / (n * v.ex ** (n - 1))
             return d, da, dx
         if k == "Exponential":
